@@ -8,8 +8,9 @@
    loop returns its error, the node shuts down cleanly and is started again (IFault k), clean shutdown and
    start (IRestart).  Any interleaving, any DA fault sequence (a fault is the absence of a mark), any mix of
    empty (bd = 0) and non-empty blocks, blocks sharing a data commitment. *)
-From Coq Require Import NArith List Bool.
-From Verif Require Import Model.Includer Proofs.IncluderProofs Model.IncluderScan Proofs.IncluderScanProofs.
+From Coq Require Import String NArith List Bool.
+From Verif Require Import Model.Includer Proofs.IncluderProofs Model.IncluderScan Proofs.IncluderScanProofs
+  Model.IncluderAgg Proofs.IncluderAggProofs.
 Import ListNotations.
 Open Scope N_scope.
 
@@ -190,6 +191,88 @@ Theorem C07_eventually_fullnode_full : forall (b : N) (h : list fitem) (n : N) (
 Proof. exact fullnode_eventually. Qed.
 Print Assumptions C07_eventually_fullnode_full.
 
+(* ---- the aggregator (Model/IncluderAgg.v) ---------------------------------------------------------------
+   [arun c b h] is a SEQUENCER node with directory configuration c (config.RootDir, config.DBPath: any strings)
+   and genesis.InitialHeight = b+1 after history [h]; a history is any list over: a block is produced (AAppend),
+   one iteration of the header / data submission loop during which the DA layer gives the ANSWERS sc to the
+   successive SubmitWithOptions calls (ASubH sc / ASubD sc; an answer is: ids of a prefix of the blobs with a nil
+   error — those blobs are then on a new DA height —, or an error of any class together with ANY number of ids
+   while the DA layer in fact keeps any prefix of the blobs, or none; after sc everything is accepted), an includer
+   run (AInclude), a death k effects into an includer run + start (ACrash k), a failing effect + clean shutdown +
+   start (AFault k), clean shutdown + start (ARestart).  The mark events of Model/Includer.v are no longer inputs:
+   they are what submitToDA's postSubmit produces from the DA layer's answers; the saved marks are what lies in the
+   directory SaveCache writes to / LoadCache reads from. *)
+
+(* the includer of an aggregator is the includer of Model/Includer.v on the translated history, for every
+   configuration: every theorem above holds of [a_nd (arun c b h)] with [atrace (ainit c b) h] for the history *)
+Theorem C07_aggregator_refines_full : forall (c : acfg) (b : N) (h : list aitem),
+  a_nd (arun c b h) = run b (atrace (ainit c b) h).
+Proof. exact aggregator_refines. Qed.
+Print Assumptions C07_aggregator_refines_full.
+
+(* marked DA-included => the DA layer holds the blob at the marked height: every mark in the caches of an
+   aggregator at any time — set by this process or loaded from the cache files — whatever the DA layer answered *)
+Theorem C07_aggregator_marks_sound_full : forall (c : acfg) (b : N) (h : list aitem) (id da : N),
+  let s := arun c b h in
+  (mget (hm (a_nd s)) id = Some da -> In (BH id) (content (a_dal s) da)) /\
+  (mget (dm (a_nd s)) id = Some da -> In (BD id) (content (a_dal s) da)).
+Proof. exact aggregator_marks_sound. Qed.
+Print Assumptions C07_aggregator_marks_sound_full.
+
+(* every height an aggregator reports is a stored block whose header IS on the DA layer at the DA height recorded
+   under rhb/<n>/h and whose data — unless empty — IS on the DA layer at the one recorded under rhb/<n>/d *)
+Theorem C07_aggregator_sound_full : forall (c : acfg) (b : N) (h : list aitem) (n : N), let s := arun c b h in
+  b < n <= rep (a_nd s) ->
+  exists x hda dda,
+    block_at (a_nd s) n = Some x /\
+    meta_get (meta (a_nd s)) (KH n) = Some hda /\ meta_get (meta (a_nd s)) (KT n) = Some dda /\
+    In (BH (bh x)) (content (a_dal s) hda) /\
+    (if bempty x then dda = hda else In (BD (bd x)) (content (a_dal s) dda)).
+Proof. exact aggregator_sound. Qed.
+Print Assumptions C07_aggregator_sound_full.
+
+(* ids that come back next to an error have no effect whatever on a submission: the marks, the watermark and the DA
+   layer afterwards are those of the same answers without the ids, for every pending list, answer script, fuel *)
+Theorem C07_aggregator_ids_with_error_ignored_full :
+  forall (f : nat) (rem : list (N * blob)) (sc : list answer) (wm : N) (d : list (list blob)),
+  asubmit f rem (map strip_ids sc) wm d = asubmit f rem sc wm d.
+Proof. exact ids_with_error_ignored. Qed.
+Print Assumptions C07_aggregator_ids_with_error_ignored_full.
+
+(* an answer with an error — any class, any ids, whatever the DA layer kept — sets no mark and moves no watermark:
+   the submission goes on (a cancellation: ends) as if the call had not been made *)
+Theorem C07_aggregator_error_marks_nothing_full :
+  forall (f : nat) (rem : list (N * blob)) (sc : list answer) (wm : N) (d : list (list blob)) (e : eclass) (ids kept : N),
+  asubmit (S f) rem (AErr e ids kept :: sc) wm d =
+  let d' := da_keep d (map snd (firstn (N.to_nat kept) rem)) in
+  match e with ECancel => ([], wm, d') | _ => asubmit f rem sc wm d' end.
+Proof. exact error_answer_marks_nothing. Qed.
+Print Assumptions C07_aggregator_error_marks_nothing_full.
+
+(* after a clean stop + start (also the one that follows a failing effect) every mark that was set is still set,
+   and no other: the caches of the new process are those of the old one — for EVERY configuration of RootDir and
+   DBPath (SaveCache writes where LoadCache reads) *)
+Theorem C07_aggregator_restart_keeps_marks_full : forall (c : acfg) (b : N) (h : list aitem) (k : nat),
+  let s := arun c b h in
+  hm (a_nd (arun c b (h ++ [ARestart]))) = hm (a_nd s) /\ dm (a_nd (arun c b (h ++ [ARestart]))) = dm (a_nd s) /\
+  hm (a_nd (arun c b (h ++ [AFault k]))) = hm (a_nd s) /\ dm (a_nd (arun c b (h ++ [AFault k]))) = dm (a_nd s).
+Proof. exact restart_keeps_marks. Qed.
+Print Assumptions C07_aggregator_restart_keeps_marks_full.
+
+(* C07 liveness on an aggregator under the guard [no_crash] (no process death in the history; clean stops / starts
+   and failing effects at any point are allowed), for every configuration: once the DA layer has accepted the
+   headers up to n (the header watermark has reached n) and the data of every non-empty block up to n (they lie at
+   or below the data watermark), one includer run reports at least n.  What is missing relative to the property:
+   histories with a process death (C07_eventually_refuted: the marks are lost, F9). *)
+Theorem C07_eventually_aggregator_partial : forall (c : acfg) (b : N) (h : list aitem) (n : N),
+  let s := arun c b h in
+  no_crash h = true ->
+  n <= a_wh s ->
+  data_submitted s n = true ->
+  n <= rep (a_nd (arun c b (h ++ [AInclude]))).
+Proof. exact aggregator_eventually. Qed.
+Print Assumptions C07_eventually_aggregator_partial.
+
 (* ---- non-vacuity ---------------------------------------------------------------------------------- *)
 Definition b1 := {| bh := 1; bd := 0 |}.       (* empty block *)
 Definition b2 := {| bh := 2; bd := 7 |}.
@@ -280,3 +363,38 @@ Example resuming_above_a_needed_height_would_be_stuck :
   let s' := frun_from s2 (map FScan [[]; []; []] ++ [FInclude; FRestart; FScan []; FScan []; FInclude]) in
   (rep (nd s'), cur s', mget (hm (nd s')) 1, mget (dm (nd s')) 7) = (0, 3, None, Some 2).
 Proof. vm_compute. reflexivity. Qed.
+
+(* ---- aggregator ------------------------------------------------------------------------------------------ *)
+(* a node whose db_path is not the default.  Two blocks (the first empty).  Header submission: the DA layer first
+   answers with an error AND two ids while holding nothing (no mark, nothing moves), then accepts one of the two
+   headers (DA height 1), then the other (DA height 2).  Data submission: the DA layer keeps the blob (DA height 3)
+   but answers "timed out" with an id: no mark; the blob is submitted again and accepted at DA height 4.  Clean stop
+   and start: the marks are still there; one includer run reports 2 with the DA heights of the ACCEPTED submissions. *)
+Definition cfgx : acfg := {| c_root := "node"%string; c_db := "custom"%string |}.
+Definition ex_agg : list aitem :=
+  [ AAppend b1; AAppend b2; ASubH [AErr EOther 2 0; AOk 1]; ASubD [AErr ETimeout 1 1]; ARestart ].
+
+Example ex_agg_run :
+  let s := arun cfgx 0 ex_agg in
+  (rep (a_nd s), a_wh s, a_wd s, a_dal s, mget (hm (a_nd s)) 1, mget (hm (a_nd s)) 2, mget (dm (a_nd s)) 7)
+    = (0, 2, 2, [[BH 1]; [BH 2]; [BD 7]; [BD 7]], Some 1, Some 2, Some 4) /\
+  atrace (ainit cfgx 0) ex_agg = [IAppend b1; IAppend b2; IMarkH 1 1; IMarkH 2 2; IMarkD 7 4; IRestart] /\
+  no_crash ex_agg = true /\ 2 <= a_wh s /\ data_submitted s 2 = true /\
+  let s' := arun cfgx 0 (ex_agg ++ [AInclude]) in
+  (rep (a_nd s'), meta_get (meta (a_nd s')) (KH 2), meta_get (meta (a_nd s')) (KT 2)) = (2, Some 2, Some 4).
+Proof. vm_compute. repeat split; try reflexivity; discriminate. Qed.
+
+(* thirty-two failing answers: submitToDA gives up after maxSubmitAttempts = 30 calls with nothing marked; the
+   next iteration (the DA layer accepts) marks both headers at the DA height of that call *)
+Example ex_agg_exhausted :
+  let s := arun cfgx 0 [AAppend b1; AAppend b2; ASubH (repeat (AErr EOther 1 0) 32)] in
+  (a_wh s, a_dal s, mget (hm (a_nd s)) 1) = (0, [], None) /\
+  let s' := astep s (ASubH []) in (a_wh s', a_dal s', mget (hm (a_nd s')) 2) = (2, [[BH 1; BH 2]], Some 1).
+Proof. vm_compute. split; reflexivity. Qed.
+
+(* what C07_aggregator_restart_keeps_marks_full excludes: a SaveCache that wrote below config.DBPath while LoadCache
+   reads RootDir/data would leave the new process without marks whenever DBPath is not "data" *)
+Example saving_below_db_path_would_lose_the_marks :
+  fs_get (fs_put (c_root cfgx, c_db cfgx) ([(1, 1)], [(7, 4)]) []) (load_dir cfgx) = ([], []) /\
+  fs_get (fs_put (save_dir cfgx) ([(1, 1)], [(7, 4)]) []) (load_dir cfgx) = ([(1, 1)], [(7, 4)]).
+Proof. vm_compute. split; reflexivity. Qed.
